@@ -183,9 +183,9 @@ def run(ctx):
                         ats.setdefault(m.group(1), []).append(ctx.expr(owner, t["args"][1]))
         ok = set(ats) == {"Named"} and all(re.search(r"ident", x) for x in ats["Named"])
         ctx.ob("C16.G.named-fields-located", f.key, "err.at(ident) only for named fields", ok, "Error::at calls per field kind: %s" % ats)
-        news = ctx.find_calls(f, r"Fields::<T>::new$")
-        ok = len(news) == 1 and "From<&syn::data::Fields>>::from(a1)" in ctx.expr(f, news[0][1]["args"][0]).replace("core::convert::Into<U>>::into", "From<&syn::data::Fields>>::from") or len(news) == 1 and "a1" in ctx.expr(f, news[0][1]["args"][0])
-        ctx.ob("C16.G.style-from-input", f.key, "Fields::new(fields.into(), items)", ok, "%s" % [ctx.expr(f, t["args"][0])[:140] for _, t in news])
+        okrows = [v for c, v in resalg.cases(ctx, f) if v.startswith("core::result::Result::Ok{")]
+        ok = bool(okrows) and all(re.search(r"Fields::<T>::new\((?:[^(),]*(?:into|from)\()?a1\)?, ", v) for v in okrows)
+        ctx.ob("C16.G.style-from-input", f.key, "Fields::new(fields.into(), items)", ok, "%s" % [v[:160] for v in okrows])
     f = ctx.fn("<darling_core::ast::data::Style as core::convert::From<&syn::data::Fields>>::from")
     if f:
         m = {}
